@@ -23,7 +23,7 @@ func gen(t *rapid.T) sw.Scenario {
 	case 3:
 		sc.InitialHeight = uint64(rapid.IntRange(2, 5).Draw(t, "ihs"))
 	default:
-		sc.InitialHeight = 1<<32 + uint64(rapid.IntRange(0, 3).Draw(t, "ihb"))
+		sc.InitialHeight = 1<<20 + uint64(rapid.IntRange(0, 3).Draw(t, "ihb")) // large, but a pending range wrongly starting at 0 stays allocatable (2^32 would be a 32 GiB slice: a hang, not a verdict)
 	}
 	sc.MaxBlob = rapid.SampledFrom([]uint64{0, 0, 1000, 1600}).Draw(t, "maxblob")
 	n := rapid.IntRange(3, world.Scale(25, 45)).Draw(t, "nops")
